@@ -2,8 +2,9 @@ ENGINES = [
  {"name": "evysim-L1", "path": "harness/vdrv", "serves_properties": ["C08", "C14", "C15"], "kind_free_text": "deterministic simulation: real lexer/parser/evaluator under a simulated platform (effects, scripted input, virtual clock, numbered fault points), seeded scheduler, explicit JSON scenarios as replay files, ddmin minimiser, worker OS processes"},
  {"name": "xform", "path": "xform", "serves_properties": ["C14"], "kind_free_text": "go/packages source rewriter that inserts the seams into a scratch copy of /repo"},
 ]
+ENGINES.append({"name": "simos", "path": "harness/vsim/simos", "serves_properties": ["C18"], "kind_free_text": "fault- and crash-injecting file/process seam over a real directory: numbered decision points before, inside and after every os call of package main and pkg/cli; strace-based conformance layer on the real binary"})
 NOTES = "Fix commits in /repo: see known_findings.json. Properties whose check is not built yet are listed under not_applicable with reason 'check under construction'."
-PENDING.update({p: "check under construction in this session (claimed in DESIGN.md; will move to checks once its driver is committed)" for p in ["C02", "C18", "C20"]})
+PENDING.update({p: "check under construction in this session (claimed in DESIGN.md; will move to checks once its driver is committed)" for p in ["C02", "C20"]})
 claim("C14", "fault_enumeration",
  "For every program of the workload the stop flag is raised inside every fault point of its run (each Yield, Sleep, Read poll and idle moment; exhaustively for runs up to the tier's limit, sampled beyond) and the interrupted run is compared with the uninterrupted one: result is 'stopped', nothing is evaluated and no effect happens after the raise (only the test summary), effects before it are a prefix. Probe programs with statically known trip/call counts decide 'yields at least once per iteration and call'. Sampling over programs, exhaustive over crash points of each sampled program.",
  "The platform raises Stopped only while it has control (Yield, Sleep, blocked Read, idle). SimPlatform is a stub of the browser; the event loop of pkg/wasm is mirrored by the driver at this level.",
@@ -21,3 +22,9 @@ claim("C15", "exploration",
  "The event loop at this level is the driver's mirror of pkg/wasm handleEvents (one event at a time, registered handlers only). Programs using `test` are excluded; the reference derivation is textual.",
  "deterministic simulation of event histories against an executable reference model (handlers as procedures)",
  "DESIGN.md §5.4", "evysim-L1")
+
+claim("C18", "fault_enumeration",
+ "The real `evy fmt` command (kong parsing, fmtCmd.Run, format, writeAtomically) runs in-process on a real directory behind the simos seam. For every sampled scenario (argv with -w/-c/none, 0-3 .evy/.txtar files with content and mode, or stdin) the fault-free operation trace is recorded and its whole single-fault space is executed: crash before/after every operation, failure of every operation with every errno, torn and short writes, data-losing close; plus seeded two-fault sequences. After every run the directory is inspected: content is exactly the original or exactly the reference formatted text, mode unchanged, unparsable files untouched with non-zero status, -c truthful and non-mutating. A conformance layer runs the real binary under strace error/SIGKILL injection.",
+ "A killed process loses nothing the kernel already accepted (no power-loss model). Process exit and os calls are reached through the simos seam in-process; the strace layer validates that picture on the real binary when ptrace is available.",
+ "deterministic simulation with crash/errno/torn-write fault enumeration over the command's file-operation trace",
+ "DESIGN.md §5.5", "simos")
